@@ -37,6 +37,8 @@ def shards(tier, seed):
     out.append({'name': 'prims', 'kind': 'prims', 'cost': 5})
     out.append({'name': 'errors', 'kind': 'errors', 'cost': 1})
     out.append({'name': 'layouts', 'kind': 'layouts', 'cost': 6})
+    for kf in (8, 24, 128):
+        out.append({'name': 'histories-k%d' % kf, 'kind': 'histories', 'kf': kf, 'cost': 15})
     return out
 
 
@@ -63,6 +65,8 @@ def run_shard(shard, ctx):
         _prims(col, des, R, np)
     elif shard['kind'] == 'layouts':
         _layouts(ctx, col, des, np)
+    elif shard['kind'] == 'histories':
+        _histories(shard, ctx, col, des, R, np)
     else:
         _errors(col, des, np)
     if _templates_digest(des) != t0:
@@ -163,6 +167,70 @@ def _sweep(shard, ctx, col, des, R, np):
             col.transitions += 2; col.evaluations += nblocks; col.states += nblocks; col.nontrivial += nblocks
             if not np.array_equal(p, blocks):
                 col.violation('C06/inversion', 'decrypt(encrypt(x)) != x, key form %d' % kf, {'keyform': kf, 'key24': k24s[ki]})
+
+
+def _histories(shard, ctx, col, des, R, np):
+    """The cipher has no memory: every call sequence (depth <= D) over calls on the SAME block/key array objects and in-place rewrites of those arrays
+    between calls; every call must return the FIPS 46-3 state for the CURRENT content of the arrays."""
+    import itertools
+    from mc.common import rng_for
+    kf = shard['kf']; tier = ctx['tier']
+    single = kf in (8, 128)
+    rng = rng_for(ctx['seed'], 'c06h', kf)
+    blocks = rng.randint(0, 256, (16, 8)).astype(np.uint8)
+    k24s = [list(bytes.fromhex('133457799BBCDFF1' + '0123456789ABCDEF' + 'FEDCBA9876543210'))] + rng.randint(0, 256, (9, 24)).tolist()
+    for i in range(1, 10): k24s.append([b ^ (0x5a if j == (5 * i) % 8 else 0) for j, b in enumerate(k24s[i])])      # one byte of K1 changed
+    karr, scheds = _mk_keys(R, np, kf, k24s)
+    last = 0 if single else 2
+    depth = 4 if tier == 'quick' else 5
+    calls = {'E': (False, None), 'D': (True, None), 'Es': (False, (1, 3)), 'Ds': (True, (14, 5))}
+    muts = ('Kall', 'Kbyte', 'Ball')
+    menu = list(calls) + list(muts)
+    cache = {}
+    for shape in ('1b1k', 'NbNk'):
+        n = 1 if shape == '1b1k' else 3
+        for seq in itertools.product(menu, repeat=depth):
+            if seq[-1] in muts or not any(e in muts for e in seq): continue
+            if any(a in muts and a == b_ for a, b_ in zip(seq, seq[1:])): continue
+            bi = list(range(n)); ki = list(range(n))
+            B = blocks[0].copy() if n == 1 else blocks[bi].copy()
+            K = karr[0].copy() if n == 1 else karr[ki].copy()
+            step = 0
+            for pos, ev in enumerate(seq):
+                if ev == 'Kall':
+                    step += 1; ki = [(1 + (step * 3 + j)) % 10 for j in range(n)]; K[...] = karr[ki[0]] if n == 1 else karr[ki]
+                elif ev == 'Kbyte':
+                    step += 1
+                    j = n - 1
+                    if 1 <= ki[j] < 10: ki[j] += 9
+                    elif ki[j] >= 10: ki[j] -= 9
+                    else: ki[j] = 1
+                    if n == 1: K[...] = karr[ki[0]]
+                    else: K[j] = karr[ki[j]]
+                elif ev == 'Ball':
+                    step += 1; bi = [(step * 5 + j) % 16 for j in range(n)]; B[...] = blocks[bi[0]] if n == 1 else blocks[bi]
+                else:
+                    dec, slot = calls[ev]
+                    case = {'kind': 'history', 'keyform': kf, 'shape': shape, 'sequence': list(seq), 'position': pos}
+                    col.evaluations += 1; col.states += 1; col.transitions += 1
+                    kw = {}
+                    if slot is not None: kw = {'at_round': slot[0], 'after_step': slot[1], 'at_des': last}
+                    try:
+                        got = (des.decrypt if dec else des.encrypt)(B, K, **kw)
+                    except Exception as e:
+                        col.violation('C06/history/raised', 'key form %d %s, call %d of %s: %s: %s' % (kf, shape, pos, list(seq), type(e).__name__, e), case); continue
+                    exp = []
+                    for b_, k_ in zip(bi, ki):
+                        if (b_, k_, dec) not in cache: cache[(b_, k_, dec)] = R.tdes_trace([int(x) for x in blocks[b_]], scheds[k_], dec, last)
+                        exp.append(cache[(b_, k_, dec)][(last,) + (slot if slot is not None else (15, 9))])
+                    exp = np.array(exp, dtype=np.uint8)
+                    if n == 1: exp = exp[0]
+                    if pos and any(e in muts for e in seq[:pos]): col.nontrivial += 1
+                    if np.asarray(got).shape != exp.shape or not np.array_equal(np.asarray(got), exp):
+                        col.violation('C06/history/%s' % ('dec' if dec else 'enc'), 'key form %d %s: call %d (%s) of the sequence %s on the same block/key array objects (rewritten in place between calls) does not return '
+                                      'the FIPS 46-3 state for the current array contents: got=%s expected=%s' % (kf, shape, pos, ev, list(seq), np.atleast_2d(got)[-1].tolist(), np.atleast_2d(exp)[-1].tolist()), case)
+            col.outcomes.add(seq)
+    col.sample({'check': 'call histories on reused arrays', 'depth': depth, 'menu': menu}, limit=1)
 
 
 def _weight_inputs(np, nwords, bits):
